@@ -40,6 +40,23 @@ CHECKS = {
               "proof_same/stmt_same/key_same facts are harness byte comparisons; panics count as violations."),
         technique="TLA+/TLC model checking of FiatShamir with an adversary + spec-derived fault enumeration validated as traces",
     ),
+    "C14": dict(
+        category="model_checking",
+        text=("KzgMultiOpen (construct_intermediate_sets as a function of the query LIST, symbolic acceptance) is "
+              "model-checked over ALL query lists with <= MaxPoly polynomials x 3 points x 4 list orders x every single "
+              "corruption (evaluation, point, commitment, reuse of another used point/commitment, each proof element, "
+              "repeated pair on either side): completeness, soundness and duplicate refusal. Every scenario TLC "
+              "enumerates (quick: all honest lists + 6000 sampled corruptions; thorough: all) is executed through the "
+              "real commit/multi_open/multi_prepare with random, zero, constant, identical-behind-distinct-references "
+              "and chopped (2..4 pieces) commitments, k=2..7, plus sampled lists up to 12 polynomials x 5 points; "
+              "Kzg_Trace recomputes the verdict and the number of point sets from every logged scenario and consumes "
+              "the line only if the code's outcome (ok / reject / DuplicatedQuery, never panic) and the number of "
+              "evaluations in the proof equal them."),
+        design_ref="DESIGN.md 4/C14",
+        note=("Injective idealisation of polynomial values; exhaustive only within MaxPoly<=3 (quick) / 4 (thorough) and "
+              "3 points; larger lists sampled."),
+        technique="TLA+/TLC exhaustive scenario enumeration + replay into the real KZG API validated by a TLC trace spec",
+    ),
 }
 
 NOT_YET = {
